@@ -220,6 +220,9 @@ def run_mv(rep, tier, seed, progs):
             w = p[0].split()
             rep.distinct(("mv", "cap%s" % min(int(w[1]), 2), "P%s" % min(int(w[2]), 2), "C%s" % min(int(w[3]), 2), w[6]))
             viol = []
+            if res.result.startswith("result slow"):
+                rep.cov["mv_inconclusive_slow"] = rep.cov.get("mv_inconclusive_slow", 0) + 1
+                continue
             st = next((l for l in res.trace if l.startswith("stalled ")), None)
             if res.result.startswith("result hung"):
                 f = dict(x.split("=") for x in st.split()[1:]) if st else {}
